@@ -14,8 +14,11 @@ import SuppModel.Extract.LemmasWfFull
 import SuppModel.Flow.Scoping
 import SuppModel.Props.C05
 import SuppModel.Extract.LemmasLayoutGraph
-import SuppModel.Extract.LemmasLayout2
+import SuppModel.Extract.LemmasLayoutPair
 import SuppModel.Props.C13
+import SuppModel.Extract.LemmasRank
+import SuppModel.Props.C08Flow
+import SuppModel.Extract.LemmasMark
 
 namespace SuppModel.Props.Extract
 open SuppModel.Flow SuppModel.Extract
@@ -94,12 +97,34 @@ theorem extract_C05_local_not_outer (lines : List Text.Str) (mods : List (String
         ¬ (st.toGraph builtins).isGlobal id) :=
   SuppModel.Props.C05.C05_local_not_outer _ (extract_wf lines mods t st builtins h) n R f fr sc tbl x v hf hs hk hx ht hv
 
+/-- RANKED: every extracted graph is `Graph.ranked` (acyclic once loop back edges are ignored, closed under
+    reference) - the rank  (index of the flow's scope) * (#flows + 1) + (creation index of the flow)  decreases along
+    every non-loop call of the evaluator: an ordinary predecessor is an earlier flow of the same scope; a root flow
+    depends on the final flow of the scope its scope's parent chain resolves to (class scopes delegate upwards), a
+    scope with a smaller index since scope parents are earlier scopes, and a final flow belongs to its scope
+    (`good_validRankU`, then `C08_ranked_complete_unbounded`). -/
+theorem extract_ranked (lines : List Text.Str) (mods : List (String × List String)) (t : Ast) (st : St)
+    (builtins : List String) (h : extract lines mods t = .ok st) : (st.toGraph builtins).ranked = true :=
+  SuppModel.Props.C08Flow.C08_ranked_complete_unbounded _ (rankArr st)
+    (good_validRankU (extract_good lines mods t st h) builtins)
+
+/-- C08 AT EXTRACTOR LEVEL: on every extracted graph the table evaluator terminates - the table of every existing
+    flow is computed whatever loops are cut, and every query of every history (on existing flows) is answered by the
+    memoised evaluator - with any fuel ≥ `rankFuel` -/
+theorem extract_C08 (lines : List Text.Str) (mods : List (String × List String)) (t : Ast) (st : St)
+    (builtins : List String) (h : extract lines mods t = .ok st) (n : Nat) (hn : (st.toGraph builtins).rankFuel ≤ n) :
+    (∀ (f : Nat) (fr : FlowRec), (st.toGraph builtins).flow? f = some fr → ∀ R : List Nat,
+        (flowNames (st.toGraph builtins) n R f).isSome) ∧
+    (∀ (qs : List Query), (∀ q ∈ qs, ((st.toGraph builtins).flow? q.flow).isSome) →
+        ∀ (i : Nat) (q : Query), qs[i]? = some q → ((runQueries (st.toGraph builtins) n {} qs)[i]?.bind id).isSome) :=
+  have hr := extract_ranked lines mods t st builtins h
+  ⟨fun f fr hf R => SuppModel.Props.C08Flow.C08_eval_terminates _ hr f fr hf R n hn,
+   fun qs hq i q hi => SuppModel.Props.C08Flow.C08_history_answers _ hr n hn qs hq i q hi⟩
+
 /-- FORWARD EDGES: in every extracted graph a flow's ordinary predecessors (`.flow q`; loop edges excepted) were
     created before it, and a scope's parent before the scope: creation index is a rank for the edges inside a
-    scope.  (`Graph.ranked` itself is NOT derived: a root flow also depends on the FINAL flow of the enclosing
-    function / module scope, which is created later than the inner scope's flows, so the rank is not the creation
-    index; it exists - order by nesting depth, then index - but `ranked` is about the particular relaxation
-    `computeRank` of Flow/Rank.lean, whose convergence on acyclic graphs is not proved there.) -/
+    scope.  (Creation index alone is not a rank: a root flow also depends on the FINAL flow of the enclosing function /
+    module scope, created later than the inner scope's flows; `extract_ranked` orders by scope index first.) -/
 theorem extract_forward_edges (lines : List Text.Str) (mods : List (String × List String)) (t : Ast) (st : St)
     (h : extract lines mods t = .ok st) :
     (∀ (i : Nat) (f : FlowRec), st.flows[i]? = some f → ∀ q, Parent.flow q ∈ f.parents → q < i) ∧
@@ -122,17 +147,12 @@ theorem extract_wf_partial (lines : List Text.Str) (mods : List (String × List 
   let b := extract_basic lines mods t st h
   ⟨b.flowIds, b.scopeIds, b.nameScope⟩
 
-/-- LAYOUT INDEPENDENCE at extractor level, the part that is proved (layer 1: the interpreter).
-    Two layouts of one program: the second tree is the first with every node position mapped by `φ`; `ψ` maps the
-    locations the extractor stores in names (node positions, `get_expr_end` = a node start + (0, 1), the
-    decorated-body location), `S` lists them, and `ψ` preserves their order.  IF on every node of the tree the
-    actions of the visit method on the re-positioned node are the re-positioned actions, storing locations of `S`
-    (`CompileComm`: a statement about the state-free reading half `compile` only - layer 2, stated, not proved),
-    THEN the second extraction succeeds, the two graphs have the same shape (`sameShape`: the hypothesis of
-    `C13_layouts`; in particular every `_names` list has the same bindings in the same order), the second graph is
-    the first with locations mapped by `ψ`, reads are recorded at the mapped positions with the same flows, and for
-    every read whose position is in `S` with `ψ pos = φ pos`, `orderIsoAt` holds - so by `C13_layouts` both
-    layouts give every read the same table.  `declared_at` (a text search over different texts) is not related. -/
+/-- LAYOUT INDEPENDENCE at extractor level, layer 1 (the interpreter), for an arbitrary per-node predicate `Q`:
+    if `compile` commutes with re-positioning on `Q`-trees (`CompileComm`; proved for `Q := layoutQ φ ψ S` as
+    `compileComm_layoutQ`, see `extract_layout`) and `ψ` preserves the order of the stored locations `S`, the two
+    runs of the extractor stay in correspondence (`Sim`): the second graph is the first with locations mapped by `ψ`,
+    same shape, `.flow` attributes at `φ`-mapped positions with the same flows, `orderIsoAt` for every query position
+    of `S` with `ψ pos = φ pos`.  `declared_at` (a text search over different texts) is not related. -/
 theorem extract_layout_partial (φ ψ : Pos → Pos) (S : List Pos) (Q : Ast → Bool)
     (hop : OrderPreserving ψ S) (hQ : CompileComm φ ψ S Q)
     (lines lines' : List Text.Str) (mods : List (String × List String)) (t : Ast) (ht : t.all Q = true)
@@ -155,20 +175,98 @@ theorem extract_layout_partial (φ ψ : Pos → Pos) (S : List Pos) (Q : Ast →
   · exact hpos
   · exact locsOf_in hl builtins f p hp
 
-/-- the same WITHOUT the `CompileComm` hypothesis on the fragment layer 2 is proved for: trees made of assignments,
-    names and the classes without a visit method (expressions, calls, attribute access, expression statements, …),
-    whose positions `p` satisfy `ψ (p.1, p.2 + 1) = ((φ p).1, (φ p).2 + 1)` and whose stored locations are in `S`
-    (`fragQ`, decidable) -/
-theorem extract_layout_fragment (φ ψ : Pos → Pos) (S : List Pos) (hop : OrderPreserving ψ S)
-    (lines lines' : List Text.Str) (mods : List (String × List String)) (t : Ast) (ht : t.all (fragQ φ ψ S) = true)
-    (st : St) (builtins : List String) (h : extract lines mods t = .ok st) :
+/-- LAYOUT INDEPENDENCE at extractor level, for EVERY tree and every visit method (layer 2 proved: `compile_comm`,
+    one commutation lemma per visit method).  Hypotheses, all decidable: every node of the tree satisfies `layoutQ`
+    (`ψ = φ` at its position, `ψ` commutes with the "+ (0, 1)" of `get_expr_end` at the end of the expression it roots
+    and with the decorator-line / statement-column mix of `get_first_body_node_loc`; the locations its visit method
+    stores are in `S`), and `ψ` preserves the order of `S`.  No well-shapedness is needed: if the first extraction
+    succeeds so does the second.  A query position `pos` that makes the same comparisons with the locations of `S` on
+    both layouts (`Pos.lt pos' (ψ l) = Pos.lt pos l`, with `pos'` its counterpart) satisfies `queryIsoAt` in every flow. -/
+theorem extract_layout (φ ψ : Pos → Pos) (S : List Pos) (hop : OrderPreserving ψ S)
+    (lines lines' : List Text.Str) (mods : List (String × List String)) (t : Ast)
+    (ht : t.all (layoutQ φ ψ S) = true) (st : St) (builtins : List String) (h : extract lines mods t = .ok st) :
     ∃ st', extract lines' mods (t.mapPos φ) = .ok st' ∧
       st'.toGraph builtins = (st.toGraph builtins).mapLoc ψ ∧
       sameShape (st.toGraph builtins) (st'.toGraph builtins) = true ∧
       st'.flowAttrs = st.flowAttrs.map (fun x => (x.1.map φ, x.2.1, x.2.2)) ∧
-      ∀ pos id f, (some pos, id, f) ∈ st.flowAttrs → pos ∈ S → ψ pos = φ pos →
-        orderIsoAt (st.toGraph builtins) (st'.toGraph builtins) f pos (φ pos) = true :=
-  extract_layout_partial φ ψ S (fragQ φ ψ S) hop compileComm_frag lines lines' mods t ht st builtins h
+      ∀ pos pos' f, (∀ l ∈ S, Pos.lt pos' (ψ l) = Pos.lt pos l) →
+        queryIsoAt (st.toGraph builtins) (st'.toGraph builtins) f pos pos' = true := by
+  obtain ⟨st', e, hs, hl⟩ := extract_sim hop lines lines' mods (compileComm_layoutQ φ ψ S) t ht st h
+  have hg := hs.toGraph builtins
+  refine ⟨st', e, hg, by rw [hg]; exact sameShape_mapLoc _, hs.flowAttrs, ?_⟩
+  intro pos pos' f hpos
+  rw [hg]
+  exact queryIsoAt_mapLoc _ f pos pos' (fun l hl' => hpos l (locsOf_in hl builtins f l hl'))
+
+/-- the same for a REAL pair of layouts, two serialised trees: `layoutPairOK t1 t2` (decidable; the driver op
+    `layoutPair` evaluates it) says that the trees are equal up to positions, that the positions zipped in traversal
+    order define a map `φ` (`pairPhi`), and that with `ψ` (`pairPsi`: `φ` on node positions, "+ (0, 1)" of `φ` one
+    column to the left, the decorated-body mix) and `S` = the locations the visit methods store (`storedLocs`) the
+    hypotheses of `extract_layout` hold and every `Name` position makes the same comparisons with `S` on both sides.
+    Then the second extraction succeeds, the graphs have the same shape, the `.flow` attributes correspond, and
+    every `Name` position satisfies `queryIsoAt` in every flow - the hypotheses of `C13_layouts`. -/
+theorem extract_layout_pair (t1 t2 : Ast) (hok : layoutPairOK t1 t2 = true)
+    (lines1 lines2 : List Text.Str) (mods : List (String × List String)) (s1 : St) (builtins : List String)
+    (h : extract lines1 mods t1 = .ok s1) :
+    ∃ s2, extract lines2 mods t2 = .ok s2 ∧
+      sameShape (s1.toGraph builtins) (s2.toGraph builtins) = true ∧
+      s2.flowAttrs = s1.flowAttrs.map (fun x => (x.1.map (pairPhi t1 t2), x.2.1, x.2.2)) ∧
+      ∀ pos ∈ namePos t1, ∀ f,
+        queryIsoAt (s1.toGraph builtins) (s2.toGraph builtins) f pos (pairPhi t1 t2 pos) = true := by
+  obtain ⟨hmap, hq, hop, hqs⟩ := layoutPairOK_spec hok
+  obtain ⟨s2, e, _, hsame, hattrs, hquery⟩ :=
+    extract_layout (pairPhi t1 t2) (pairPsi t1 t2) (pairS t1) hop lines1 lines2 mods t1 hq s1 builtins h
+  rw [hmap] at e
+  refine ⟨s2, e, hsame, hattrs, ?_⟩
+  intro pos hpos f
+  rw [← (hqs pos hpos).1]
+  exact hquery pos _ f (hqs pos hpos).2
+
+/-- C13 AT EXTRACTOR LEVEL: for a layout pair accepted by `layoutPairOK`, the table `names_at` computes at a `Name`
+    node is the same on both layouts (bindings identified by identity), for every flow and every state of the loop
+    resolution - `extract_layout_pair` composed with `C13_layouts`.  `declared_at` and the source lines, which differ
+    between layouts, are not part of the claim. -/
+theorem extract_C13 (t1 t2 : Ast) (hok : layoutPairOK t1 t2 = true)
+    (lines1 lines2 : List Text.Str) (mods : List (String × List String)) (s1 s2 : St) (builtins : List String)
+    (h1 : extract lines1 mods t1 = .ok s1) (h2 : extract lines2 mods t2 = .ok s2) :
+    ∀ pos ∈ namePos t1, ∀ (n : Nat) (R : List Nat) (f : Nat),
+      namesAt (s2.toGraph builtins) n R f (pairPhi t1 t2 pos) = namesAt (s1.toGraph builtins) n R f pos := by
+  obtain ⟨s2', e, hsame, _, hq⟩ := extract_layout_pair t1 t2 hok lines1 lines2 mods s1 builtins h1
+  rw [h2] at e
+  injection e with e
+  subst e
+  intro pos hpos n R f
+  exact SuppModel.Props.C13.C13_layouts _ _ n R f pos _ hsame (hq pos hpos f)
+
+/-- EXTRACTION NEVER LOOKS AT THE ID OF A READ: on a tree every node of which satisfies the decidable `renQ p s` (the
+    reading half of its visit method is the same on the renamed tree, up to renaming the nodes it visits - the binding
+    loops read the ids of their targets only, which have `ctx = Store()`), extracting the tree with the `Load` name
+    at `p` renamed to `s` gives exactly the state of the original extraction, the `.flow` attribute of that name being
+    recorded under the new id - and fails with the same error when the original fails.  (The interpreter half is
+    proved for all programs: `exec_ren`; `renQ` is evaluated per node, not yet proved per visit method.) -/
+theorem extract_rename_invariant (p : Pos) (s : String) (lines : List Text.Str) (mods : List (String × List String))
+    (t : Ast) (ht : t.all (renQ p s) = true) :
+    extract lines mods (t.rename p s) = (extract lines mods t).map (St.mapAttrs (attrRen p s)) :=
+  extract_rename lines mods t ht
+
+/-- C12, CURSOR-MARK TRANSPARENCY AT ANALYSIS LEVEL.  `markTree t cursor p newId k` is the tree of the marked source:
+    the `Load` name at `p` renamed (SOURCE_MARK inserted: `newId`), every position on the cursor's line at a column ≥
+    the cursor's shifted right by `k` = |SOURCE_MARK|.  Under `markOK` (decidable; the driver op `markPair` evaluates it
+    on the REAL marked tree, which it first checks to BE `markTree` of the real unmarked tree) the extraction of the
+    marked tree succeeds whenever that of the unmarked tree does, the two graphs have the same shape, the marked name
+    gets the flow the unmarked name got, and in EVERY flow the table `names_at` computes at the ORIGINAL cursor
+    position - what `assist` asks: `name.flow.names_at(position)` - is the same: inserting the cursor does not change
+    what the analysis makes visible at the cursor. -/
+theorem C12_mark_transparent (t : Ast) (cursor p : Pos) (newId : String) (k : Nat)
+    (hok : markOK t cursor p newId k = true)
+    (lines lines' : List Text.Str) (mods : List (String × List String)) (s : St) (builtins : List String)
+    (h : extract lines mods t = .ok s) :
+    ∃ s', extract lines' mods (markTree t cursor p newId k) = .ok s' ∧
+      sameShape (s.toGraph builtins) (s'.toGraph builtins) = true ∧
+      (∀ id f, (some p, id, f) ∈ s.flowAttrs → (some p, newId, f) ∈ s'.flowAttrs) ∧
+      ∀ (n : Nat) (R : List Nat) (f : Nat),
+        namesAt (s'.toGraph builtins) n R f cursor = namesAt (s.toGraph builtins) n R f cursor :=
+  mark_transparent t cursor p newId k hok lines lines' mods s builtins h
 
 /-! ### non-vacuity: a small concrete tree -/
 
@@ -197,20 +295,21 @@ def exFrag : Ast :=
        .none]
     ], .list []]
 
-/-- the hypotheses of `extract_layout_fragment` hold of it (stored locations: the two expression ends, and the read
-    positions), so its two layouts are extracted to graphs of the same shape with order-isomorphic regions -/
-example : exFrag.all (fragQ SuppModel.Props.C13.exPhi SuppModel.Props.C13.exPhi [(1, 5), (2, 7), (1, 4), (2, 4), (2, 6)]) = true ∧
-    (match extract [] [] exFrag with
-     | .ok st => st.flows.map (fun f => f.names.map (fun n => (n.name, n.loc)))
-     | .error _ => []) = [[("x", (1, 5)), ("w", (2, 7))]] := by
+/-- a real-shaped layout pair: the tree below (assignments, an `if`, an expression statement) and the same program with
+    every line doubled plus one and every column shifted by three is accepted by `layoutPairOK`, and its `Name`
+    positions are the six one expects -/
+example : layoutPairOK exTree (exTree.mapPos SuppModel.Props.C13.exPhi) = true ∧
+    namePos exTree = [(1, 0), (1, 4), (2, 3), (3, 4), (1, 7), (1, 11)] ∧
+    storedLocs exTree = [(1, 5), (1, 12)] := by
   decide +kernel
 
-example : ∃ st st', extract [] [] exFrag = .ok st ∧ extract [] [] (exFrag.mapPos SuppModel.Props.C13.exPhi) = .ok st' ∧
-    sameShape (st.toGraph []) (st'.toGraph []) = true := by
-  obtain ⟨st, hst⟩ := extract_total [] [] exFrag (by decide +kernel)
-  obtain ⟨st', h1, _, h3, _⟩ := extract_layout_fragment SuppModel.Props.C13.exPhi SuppModel.Props.C13.exPhi
-    [(1, 5), (2, 7), (1, 4), (2, 4), (2, 6)] (SuppModel.Props.C13.exPhi_preserves _) [] [] [] exFrag (by decide +kernel) st [] hst
-  exact ⟨st, st', hst, h1, h3⟩
+/-- the cursor at the end of the first `y` of `x = y; w = y` (line 1, column 5): the hypotheses of
+    `C12_mark_transparent` hold, the marked tree has the second statement 13 columns to the right, and the binding
+    of `x` keeps its location (1, 5) = one column after the START of the marked name -/
+example : markOK exTree (1, 5) (1, 4) "y__supp_mark__" 13 = true ∧
+    namePos (markTree exTree (1, 5) (1, 4) "y__supp_mark__" 13) = [(1, 0), (1, 4), (2, 3), (3, 4), (1, 20), (1, 24)] ∧
+    storedLocs (markTree exTree (1, 5) (1, 4) "y__supp_mark__" 13) = [(1, 5), (1, 25)] := by
+  decide +kernel
 
 /-- the hypotheses of the theorems hold of it, it has reads, and the graph has a region with two bindings -/
 example : wellShaped exTree = true ∧ noTypeParams exTree = true ∧
